@@ -561,11 +561,12 @@ def run_workers(spec: dict, nworkers: int, policy: Policy, *, events: bool = Fal
                 continue
             idle.discard(me)
             handled[0] += 1
+            post_poll_seq = w.max_seq() if records is not None else 0
             ack = True if ack_fn is None else bool(ack_fn(w, msg))
             rec = None
             if records is not None:
                 mid = msg.message_id
-                rec = {"thread": me, "polled": mid, "type": type(msg).__name__, "pre_seq": pre_seq, "calls_before": sum(1 for c in w.handler_calls if c[0] == mid), "ack": ack}
+                rec = {"thread": me, "polled": mid, "type": type(msg).__name__, "pre_seq": pre_seq, "post_poll_seq": post_poll_seq, "stage_id": getattr(msg, "stage_id", None), "task_id": getattr(msg, "task_id", None), "calls_before": sum(1 for c in w.handler_calls if c[0] == mid), "ack": ack}
             worker_body(w, msg, ack=ack)()
             if rec is not None:
                 rec["handled"] = sum(1 for c in w.handler_calls if c[0] == rec["polled"]) > rec["calls_before"]
@@ -666,3 +667,38 @@ def race_for_c06(case: dict) -> dict:
             seen.add(x["sig"])
             uniq.append(x)
     return {"violations": uniq, "obs": dict(obs), "keys": sorted(edges), "edges": dict(edges)}
+
+
+def race_run(spec: dict, rng: random.Random, *, events: bool = False, injector=None, nworkers: int | None = None, keep_world: bool = False, world_kw: dict | None = None, pre_hook=None, max_msgs: int = 600, records: list | None = None):
+    """Whole-workflow run by 2-4 interleaved worker threads with a seeded random / PCT policy.
+    `injector(world, sched, stop)` runs on its own scheduled thread 'X' (it idles with
+    sched.point() and acts through the public API, so its statements interleave too)."""
+    pol: Policy
+    if rng.random() < 0.65:
+        pol = RandomPolicy(rng.randrange(1 << 30), switch_p=rng.choice([0.1, 0.3, 0.5]))
+    else:
+        pol = PCT(rng.randrange(1 << 30), d=rng.choice([2, 3, 5]), horizon=rng.choice([400, 1500]))
+    holder: dict = {}
+
+    def with_sched(sched, w):
+        holder["s"] = sched
+        return None
+
+    extra = {}
+    if injector is not None:
+
+        def mk(w, stop):
+            def body() -> None:
+                injector(w, holder["s"], stop)
+
+            return body
+
+        extra["X"] = mk
+    return run_workers(spec, nworkers or rng.choice([2, 3, 4]), pol, events=events, extra_bodies=extra, with_sched=with_sched, keep_world=keep_world, world_kw=world_kw, pre_hook=pre_hook, watchdog=120.0, max_msgs=max_msgs, records=records)
+
+
+def idle_points(sched: Scheduler, n: int, stop: list | None = None) -> None:
+    for _ in range(n):
+        if stop and stop[0]:
+            return
+        sched.point("idle")
